@@ -681,7 +681,7 @@ def pool_jobs(prop, quick_plan, thorough_plan, args=()):
 
 
 POOL_FIELDS = ('programs', 'ops', 'tasksSubmitted', 'tasksRan', 'tasksDropped', 'closureTasks', 'stops', 'clears', 'drains', 'restarts', 'stopsWithRunningTask',
-               'clearsWithRunningTask', 'stopsWithWorkerInPreBlockWindow', 'singleWorkerPrograms', 'hugeMaximumPrograms', 'programsNextToASecondPool', 'maxWorkersSeen', 'delaysCondEntry', 'delaysAfterWake', 'delaysOther',
+               'clearsWithRunningTask', 'stopsWithWorkerInPreBlockWindow', 'singleWorkerPrograms', 'hugeMaximumPrograms', 'programsNextToASecondPool', 'programsOwnedByAWorkerOfAnotherPool', 'maxWorkersSeen', 'delaysCondEntry', 'delaysAfterWake', 'delaysOther',
                'workerThreadsCreated', 'poolCondWaits')
 POOL_NOTE = ('Schedules are sampled and steered by delays at the pool\'s own mutex/condvar operations, not enumerated; one owner thread, non-expiring workers. '
              'Trusted: interposer park table, glibc futex semantics for the quiescence verdict.')
